@@ -111,3 +111,16 @@ func VerifTransition(cur ConnState, ev VerifEvent) (ConnState, bool) {
 func VerifNextBackoffDelay(cur time.Duration, multiplier float64, ceil time.Duration) time.Duration {
 	return nextBackoffDelay(cur, multiplier, ceil)
 }
+
+// VerifSeedSystemBytes positions the connection's System Bytes generator so that the next value
+// handed out is v+1 (the harness uses it to reach the 32-bit wrap, which 2^32 real transactions
+// would otherwise have to precede). It reports false if c is not a connection of this package.
+func VerifSeedSystemBytes(c Connection, v uint32) bool {
+	cc, ok := c.(*connection)
+	if !ok {
+		return false
+	}
+	cc.sysGen.n.Store(v)
+
+	return true
+}
